@@ -466,6 +466,11 @@ def c02_rules(view, bs):
             out.append(finding("C02.ACC", view, "the %s starts from %s although its answer replaces the accumulator: reports accumulated so far are forgotten" % (
                 site_desc(view, s), "None" if s.self_none else "another value"), s.bb))
 
+    # ---- C02.KEEP: once examination has begun the accumulator is only ever replaced by the answer it was handed to
+    k_out, k_ob = acc_keep(view, bs, "C02.KEEP")
+    out.extend(k_out)
+    obligations += k_ob
+
     # ---- C02.STRUCT: unconditional stops (outside Break paths) hide nothing
     exam = set(next_bbs) | set(b for b, c in child_bbs.items() if not c["delegating"]) | \
         set(s.bb for s in bs.sites if s.handling == "switched")
@@ -559,3 +564,76 @@ def _acc_may_hold(view, bs, at_bb):
                 res.append(acc)
                 break
     return res
+
+
+def acc_keep(view, bs, rule):
+    """Every assignment to an accumulator that can execute after some examination (child call, report
+    site, iterator step) gives it either the Continue payload of a site the accumulator itself was
+    handed to (wrapped in Some), or its own previous value.  Anything else (None, a fresh error, the
+    payload of a site that started from None) forgets what was accumulated: an earlier fault no longer
+    makes the call fail."""
+    out = []
+    ob = 0
+    accs = bs.accumulators()
+    if not accs:
+        return out, ob
+    exam = set(n["bb"] for n in bs.nexts) | set(c["bb"] for c in bs.children) | set(s.bb for s in bs.sites)
+    after_exam = set()
+    for e in exam:
+        after_exam |= view.reachable(e)
+    sites_by_bb = {s.bb: s for s in bs.sites}
+
+    def leaves(term, depth, seen):
+        """terms an assigned value may come from, expanding multi-definition temporaries"""
+        if term[0] == "multi" and depth < 5 and term[1] not in seen:
+            res = []
+            for d in view.whole_defs(term[1]):
+                if d[0] == "stmt":
+                    res.extend(leaves(view.origin_rv(d[3]["rv"], d[1]), depth + 1, seen | {term[1]}))
+                elif d[0] == "call":
+                    res.append(view.origin_call(d[1]))
+                else:
+                    res.append(("?",))
+            return res
+        return [term]
+
+    for acc in accs:
+        for d in view.whole_defs(acc):
+            if d[0] != "stmt":
+                continue
+            bb = d[1]
+            if bb not in after_exam:
+                continue   # initialisation before anything was examined
+            ob += 1
+            tm = view.origin_rv(d[3]["rv"], bb)
+            for lf in leaves(tm, 0, frozenset([acc])):
+                if lf == ("multi", acc):
+                    continue
+                inner = lf
+                if inner[0] == "agg" and inner[1] == "adt" and inner[4] == "Some" and inner[2]:
+                    inner = inner[2][0]
+                    for sub in leaves(inner, 1, frozenset([acc])):
+                        ok = False
+                        if sub[0] == "field" and sub[2] in ("Continue", "Break") and isinstance(sub[1], tuple) and sub[1][0] == "call" and sub[1][1] in sites_by_bb:
+                            s = sites_by_bb[sub[1][1]]
+                            ok = s.acc == acc or sub[2] == "Break"
+                            # (a Break payload stored into the accumulator is C03's business, not a loss)
+                            if not ok and rule == "C02.KEEP":
+                                ok = True   # reported by C02.ACC with a better message
+                        if not ok:
+                            out.append(finding(rule, view, "the accumulated error is replaced by a value that does not contain it: earlier reports are forgotten", bb, _short(sub)))
+                    continue
+                if inner[0] == "agg" and inner[1] == "adt" and inner[4] == "None":
+                    out.append(finding(rule, view, "the accumulated error is reset to None after examination has begun: earlier reports are forgotten", bb))
+                    continue
+                if inner[0] == "field" and inner[2] == "Continue" and isinstance(inner[1], tuple) and inner[1][0] == "call" and inner[1][1] in sites_by_bb:
+                    continue   # e.g. acc: E (not Option) replaced by the payload directly
+                if inner[0] == "call" and inner[1] in sites_by_bb:
+                    continue
+                # a value computed by a local helper / closure: not decided here (C01 tracks the ownership)
+    return out, ob
+
+
+def _short(t):
+    s = repr(t)
+    return s if len(s) < 120 else s[:117] + "..."
